@@ -180,6 +180,15 @@ def check_real(case):
             continue
         outv = ef.transform(Xv)
         require(np.array_equal(np.asarray(outv), np.asarray(out)), "layout-differs", "%s input gives other columns" % lname, dict(facts, layout=lname))
+    # scikit-learn asked for pandas containers: same columns, labelled with the names get_feature_names_out announces
+    import sklearn
+    with sklearn.config_context(transform_output="pandas"):
+        framed = ef.transform(X)
+    if hasattr(framed, "columns"):
+        require(list(map(str, framed.columns)) == list(map(str, ef.get_feature_names_out())), "pandas-output:names", "%r" % (list(framed.columns)[:6],), facts)
+        require(np.array_equal(np.asarray(framed.values, dtype=np.float64), np.asarray(out, dtype=np.float64)), "pandas-output:values", "", facts)
+    else:
+        require(np.array_equal(np.asarray(framed, dtype=np.float64), np.asarray(out, dtype=np.float64)), "pandas-output:values", "", facts)
     # the other kind agrees too
     other = dict(cfg, kind="poly-slow" if cfg["kind"] == "poly" else "poly")
     _, out2, _ = _run(other, X, dict(facts, kind=other["kind"]))
